@@ -161,7 +161,8 @@ func (cf *Conf) HandshakeSteps() []simnet.Step {
 // ---- server packets of a response ----
 
 type SPacket struct {
-	Kind   string // data totals progress profile events log tablecolumns exception eos raw
+	Delay  time.Duration // the server waits this long before sending the packet
+	Kind   string        // data totals progress profile events log tablecolumns exception eos raw
 	Block  *refproto.Block
 	Prog   refproto.Progress
 	Prof   refproto.Profile
